@@ -8,6 +8,7 @@ package main
 import (
 	"bytes"
 	"fmt"
+	"github.com/WICG/webpackage/go/zz_verif/rmice"
 	"io"
 	"log"
 	"net/http"
@@ -28,12 +29,13 @@ import (
 
 // signed is the honest original.
 type signed struct {
-	spec    *gen.SXGSpec
-	e       *signedexchange.Exchange
-	file    []byte
-	tuple   string
-	payload []byte
-	desc    string
+	spec      *gen.SXGSpec
+	e         *signedexchange.Exchange
+	file      []byte
+	tuple     string
+	payload   []byte
+	desc      string
+	altStream []byte // MI encoding of another body whose digest sits in the signed X-Previous-Digest header
 }
 
 func tupleOf(e *signedexchange.Exchange) string {
@@ -228,6 +230,14 @@ func run(r *mon.Run) {
 		if i%2 == 1 {
 			spec.RespHeaders["Cache-Control"] = []string{"max-age=100"}
 		}
+		// a signed header that happens to hold a well-formed MI digest of some OTHER body (an application recording the
+		// digest of the previous version of the resource): only the version's own digest header authenticates the payload
+		d := rmice.Draft03
+		if ver == version.Version1b1 {
+			d = rmice.Draft02
+		}
+		altStream, altDigest := rmice.Encode(d, []byte("the previous version of the resource"), sp.rs)
+		spec.RespHeaders["X-Previous-Digest"] = []string{altDigest}
 		if ver != version.Version1b3 {
 			spec.ReqHeaders = http.Header{"Accept": {"*/*"}}
 		}
@@ -242,7 +252,7 @@ func run(r *mon.Run) {
 			r.HarnessFail("cannot write honest exchange: %v", err)
 			return nil
 		}
-		return &signed{spec: spec, e: e, file: buf.Bytes(), tuple: tupleOf(e), payload: spec.Payload,
+		return &signed{spec: spec, e: e, file: buf.Bytes(), tuple: tupleOf(e), payload: spec.Payload, altStream: altStream,
 			desc: fmt.Sprintf("#%d %s P-%d rs=%d payload=%d", i, ver, id.Key.Curve.Params().BitSize, sp.rs, sp.plen)}
 	}
 	idx := 0
@@ -614,6 +624,19 @@ func run(r *mon.Run) {
 				judge(r, s, c, mid.Add(shift), fetch, "signature-param", fmt.Sprintf("decoy-member-with-live-window(first=%v,shift=%v)", decoyFirst, shift > 0), 37)
 				judge(r, s, c, mid, fetch, "signature-param", fmt.Sprintf("decoy-member(first=%v),genuine-live", decoyFirst), 37)
 			}
+		}
+		// the unsigned integrity parameter redirected to that other signed header, with the payload swapped for the body
+		// it describes
+		for _, ident := range []string{"x-previous-digest/mi-sha256-03", "x-previous-digest", "x-previous-digest/mi-draft2", "X-Previous-Digest/mi-sha256-03", "digest/mi-sha256-03", "mi-draft2"} {
+			ident := ident
+			v, ok := rewriteSig(s, func(pi *sh.ParameterisedIdentifier, pl *sh.ParameterisedList) { pi.Params["integrity"] = ident })
+			if !ok {
+				continue
+			}
+			c := clone(s.e)
+			c.SignatureHeaderValue = v
+			c.Payload = append([]byte{}, s.altStream...)
+			judge(r, s, c, mid, fetch, "signature-param", "integrity-redirected="+ident+"+payload-swapped", 37)
 		}
 		// header given as raw text variations
 		for name, v := range map[string]string{"empty": "", "garbage": "\x00\xff", "sig-only": "label;sig=*AA==*", "whitespace(unsigned)": " " + strings.Replace(s.e.SignatureHeaderValue, ";", " ; ", -1) + " "} {
